@@ -95,7 +95,11 @@ def check_case(case: dict, as_frame: bool = True) -> list[dict]:
         if not exact.close(float(fp.m_i), ex["mi"], rel=REL):
             bad("MiIsOne", f"p_i={p_i} (a table node): m_i = {float(fp.m_i)!r}")
         for pf, want in ex["pf"]:
-            got = float(fp.m_scaled_func(mp.fl(pf)))
+            try:
+                got = float(fp.m_scaled_func(mp.fl(pf)))
+            except Exception as ex_:  # noqa: BLE001  a lookup that raises inside the table is an observation
+                bad("FracfaceInUnit", f"p_i={p_i}, p_f={mp.fl(pf)}: m_scaled_func raised {type(ex_).__name__}: {ex_}")
+                continue
             if not exact.close(got, want, rel=REL, abs_=REL) or (positive and not 0.0 <= got < 1.0):
                 bad("FracfaceInUnit", f"p_i={p_i}, p_f={mp.fl(pf)}: m_scaled_func gives {got!r}, expected "
                                       f"{want[0]}/{want[1]} in [0,1)")
@@ -204,7 +208,7 @@ def record(cfg: dict, seed: int, terms: dict) -> sweep.SweepLog:
     log.end()
     # scaled pseudopressure: nodes up to p_i
     log.begin("scaled", {**meta, "points": [], "what": meta["what"] + f" scaled at p_i={p_i}"})
-    msf = np.array([float(fp.m_scaled_func(x)) for x in P[:k_i + 1]])
+    msf = np.array([float(mp.quiet(fp.m_scaled_func, x)) for x in P[:k_i + 1]])
     for j in range(k_i + 1):
         agree = {"colfunc": quant.e15(msf[j], col[j], 1.0)}
         if j == 0:
@@ -226,7 +230,7 @@ def record(cfg: dict, seed: int, terms: dict) -> sweep.SweepLog:
     if xs[0] > P[0]:
         xs = np.concatenate([[P[0]], xs])
     for j, x in enumerate(xs):
-        v = float(fp.m_scaled_func(x))
+        v = float(mp.quiet(fp.m_scaled_func, x))
         agree = {}
         if j == 0:
             agree["zero"] = quant.e15(v, 0.0, 1.0)
